@@ -4,7 +4,7 @@
 
 use crate::common::*;
 use crate::model;
-use crate::{ensure, ensure_eq_bytes};
+use crate::{ensure, ensure_eq_bytes, pick};
 use vp_base::obj::*;
 use vp_base::tape::{self, Tape};
 
@@ -25,7 +25,7 @@ pub fn check(ctx: &Ctx, t: &mut Tape<'_>, r: &mut Report) -> CheckResult {
 
 fn cfb_frontends(ctx: &Ctx, t: &mut Tape<'_>, r: &mut Report) -> CheckResult {
     let dir = t.pick(&[Direction::Enc, Direction::Dec]);
-    let suite = ctx.pick_suite(t, |_| true);
+    let suite = pick!(ctx, t, r, |_| true);
     let bs = suite.info.bs;
     let key = gen_key(t, suite);
     let iv = gen_iv(t, bs);
@@ -58,7 +58,7 @@ fn cfb_frontends(ctx: &Ctx, t: &mut Tape<'_>, r: &mut Report) -> CheckResult {
 }
 
 fn ofb_frontends(ctx: &Ctx, t: &mut Tape<'_>, r: &mut Report) -> CheckResult {
-    let suite = ctx.pick_suite(t, |_| true);
+    let suite = pick!(ctx, t, r, |_| true);
     let bs = suite.info.bs;
     let key = gen_key(t, suite);
     let iv = gen_iv(t, bs);
@@ -91,7 +91,7 @@ fn ofb_frontends(ctx: &Ctx, t: &mut Tape<'_>, r: &mut Report) -> CheckResult {
 
 fn core_vs_wrapper(ctx: &Ctx, t: &mut Tape<'_>, r: &mut Report) -> CheckResult {
     let kind = t.pick(&STREAM_KINDS_ALL[..7]);
-    let suite = ctx.pick_suite(t, |s| s.stream(kind).is_some());
+    let suite = pick!(ctx, t, r, |s| s.has_stream(kind));
     let f = suite.stream(kind).unwrap();
     let bs = suite.info.bs;
     let key = gen_key(t, suite);
@@ -120,7 +120,7 @@ fn core_vs_wrapper(ctx: &Ctx, t: &mut Tape<'_>, r: &mut Report) -> CheckResult {
 }
 
 fn cts_whole_blocks(ctx: &Ctx, t: &mut Tape<'_>, r: &mut Report) -> CheckResult {
-    let suite = ctx.pick_suite(t, |s| !s.cts.is_empty());
+    let suite = pick!(ctx, t, r, |s| s.has_cts());
     let v = CtsVariant::ALL[t.idx(6)];
     let f = suite.cts(v).unwrap();
     let bs = suite.info.bs;
@@ -185,7 +185,7 @@ fn cts_whole_blocks(ctx: &Ctx, t: &mut Tape<'_>, r: &mut Report) -> CheckResult 
 }
 
 fn constructors(ctx: &Ctx, t: &mut Tape<'_>, r: &mut Report) -> CheckResult {
-    let suite = ctx.pick_suite(t, |_| true);
+    let suite = pick!(ctx, t, r, |_| true);
     let bs = suite.info.bs;
     let key = gen_key(t, suite);
     let (c1, c2) = (ctor_pick(t), ctor_pick(t));
